@@ -60,6 +60,13 @@ class Facts:
                 except Exception as e:
                     self.chain_error = '%s: %s' % (type(e).__name__, e)
         for f in self.fns.values():
+            if f.hir and f.kind != 'Closure':
+                try:
+                    f.hir = defilter_loops(f.hir, self)
+                    f.x['hir'] = f.hir
+                except Exception as e:
+                    self.chain_error = '%s: %s' % (type(e).__name__, e)
+        for f in self.fns.values():
             m2 = model_std_calls(f.body.mir, self, f.path)
             if m2 is not None:
                 f.x['mir'] = m2
@@ -1002,7 +1009,25 @@ def hcanon(e, env=None):
             else:
                 return ('hir', k, e.get('line'))
         return hcanon(e['tail'], env2)
+    if k == 'if' and e.get('else') is not None:
+        mm = select_minmax(hcanon(e['cond'], env), hcanon(e['then'], env), hcanon(e['else'], env))
+        if mm is not None:
+            return mm
     return ('hir', k, e.get('line'))
+
+
+def select_minmax(c, t, f):
+    """`if x <= y { x } else { y }` is min(x, y), `if x <= y { y } else { x }` is max(x, y) (any of < <= > >=): the value of
+    a two-way selection between the two compared quantities, as the std function would give it"""
+    if not (isinstance(c, tuple) and c and c[0] == 'bin' and c[1] in ('Lt', 'Le', 'Gt', 'Ge')) or t == f:
+        return None
+    x, y = c[2], c[3]
+    if {repr(t), repr(f)} != {repr(x), repr(y)}:
+        return None
+    small_first = c[1] in ('Lt', 'Le')          # condition true: x is the smaller one
+    picks_x = (t == x)
+    is_min = (picks_x == small_first)
+    return ('call', 'core::cmp::min' if is_min else 'core::cmp::max', (x, y))
 
 
 def hshow(c):
@@ -1244,6 +1269,17 @@ class PathWalker:
                 for sp, x in zip(pat['pats'], ini['xs']):
                     if sp.get('k') == 'bind' and sp.get('mode', '').endswith('Not)') and 'sub' not in sp:
                         env[sp['id']] = hcanon(x, env)
+            elif ini.get('k') == 'if' and ini.get('else') is not None:
+                # `let (smaller, larger) = if a <= b { (a, b) } else { (b, a) };`
+                c_ = hcanon(ini['cond'], env)
+                t_, f_ = hcanon(ini['then'], env), hcanon(ini['else'], env)
+                n_ = len(pat.get('pats', []))
+                if all(isinstance(v, tuple) and v and v[0] == 'tuple' and len(v[1]) == n_ for v in (t_, f_)):
+                    for i_, sp in enumerate(pat['pats']):
+                        if sp.get('k') == 'bind' and sp.get('mode', '').endswith('Not)') and 'sub' not in sp:
+                            v_ = t_[1][i_] if t_[1][i_] == f_[1][i_] else select_minmax(c_, t_[1][i_], f_[1][i_])
+                            if v_ is not None:
+                                env[sp['id']] = v_
             elif self.facts is not None and ini.get('k') in ('call', 'mcall'):
                 # `let (base, count) = self.region();` with a single-expression helper returning a tuple
                 cv_ = inline_calls(hcanon(ini, env), self.facts)
@@ -2403,6 +2439,54 @@ def model_std_hir(n, facts):
 INT_TYS = ('usize', 'u8', 'u16', 'u32', 'u64', 'u128', 'isize', 'i8', 'i16', 'i32', 'i64', 'i128')
 
 
+def defilter_loops(root, facts):
+    """`for PAT in ITER.filter(|&p| COND) { BODY }` as `for PAT in ITER { if COND[p := PAT] { BODY } }` (HIR): filter hands on
+    exactly the items for which the predicate is true, in order.  Only for a side-effect-free predicate (no calls other than
+    overloaded indexing, no assignments) over a by-name loop pattern; `break` / `continue` in BODY keep their meaning because the
+    `if` has no else."""
+    changed = [0]
+
+    def pure(e):
+        return not hir_find(e, lambda m: m.get('k') in ('assign', 'assignop', 'call', 'mcall', 'closure', 'loop', 'ret', 'break'))
+
+    def rec(n):
+        if isinstance(n, list):
+            return [rec(x) for x in n]
+        if not isinstance(n, dict):
+            return n
+        out = {k: (rec(v) if isinstance(v, (dict, list)) else v) for k, v in n.items()}
+        fl = for_loop_parts(out)
+        if fl:
+            pat, it, body = fl
+            it0 = strip_refs(it)
+            if it0.get('k') == 'mcall' and it0.get('name') == 'filter' and (it0.get('path') or '').endswith('Iterator::filter') \
+                    and len(it0.get('args', [])) == 1 and pat.get('k') == 'bind' and 'sub' not in pat:
+                c = strip_refs(it0['args'][0])
+                g = facts.fns.get(c.get('def')) if c.get('k') == 'closure' else None
+                ps = g.hir.get('params', []) if g is not None and g.hir else []
+                if len(ps) == 1:
+                    pp = ps[0]['pat'] if ps[0].get('k') == 'ref' else ps[0]
+                    if pp.get('k') == 'bind' and 'sub' not in pp and pure(g.hir['value']):
+                        loopvar = {'k': 'path', 'res': 'local', 'name': pat['name'], 'id': pat['id'], 'ty': pat.get('ty')}
+                        cond = subst_hir(g.hir['value'], {pp['id']: loopvar}, 0)
+                        out['scrut']['args'][0] = it0['recv']
+                        lp = strip_refs(out['arms'][0]['body'])
+                        blk = lp['body']
+                        m = strip_refs(blk['stmts'][0]['e'] if blk['stmts'] else blk.get('tail'))
+                        for arm in m['arms']:
+                            p = arm['pat']
+                            pats = p.get('pats') or [f_['pat'] for f_ in p.get('fields', [])] if p.get('k') in ('tuplestruct', 'struct') else None
+                            if pats:
+                                arm['body'] = {'k': 'block', 'stmts': [{'k': 'expr', 'e': {'k': 'if', 'cond': cond, 'then': arm['body'], 'ty': '()', 'line': out.get('line'),
+                                                                                            'modelled': 'filter'}}],
+                                               'tail': None, 'ty': '()', 'line': out.get('line'), 'modelled': 'filter'}
+                                changed[0] += 1
+                                break
+        return out
+    res = rec(root)
+    return res if changed[0] else root
+
+
 def split_chain_loops(root, facts):
     """`for PAT in (a..b).chain(c..d) { BODY }` as `for PAT in a..b { BODY }  for PAT in c..d { BODY }` (HIR): a chain of two
     half-open integer ranges yields a, .., b-1, c, .., d-1 in that order.  The iterator may be written in place, bound to an
@@ -3053,13 +3137,27 @@ def specialise_on_enum_consts(facts):
             if out.get('k') == 'match' and not str(out.get('source', '')).startswith(('TryDesugar', 'ForLoopDesugar')):
                 sc = strip_refs(out['scrut'])
                 if sc.get('k') == 'path' and sc.get('res') == 'local' and sc.get('id') == ppat['id']:
-                    for a in out['arms']:
-                        pt = a['pat']
-                        pth = (pt.get('path') or {}).get('path') if isinstance(pt.get('path'), dict) else pt.get('path')
-                        if 'guard' in a:
-                            return out
-                        if pt.get('k') == 'wild' or (pt.get('k') in ('patexpr', 'path') and pth == '%s::%s' % (E, vname)):
-                            return a['body']
+                    def pick(arms):
+                        # the arms that can match this variant, in order; a guarded one falls through to the rest when its
+                        # guard is false: `V if g => a, .., V => b`  is  `if g { a } else { b }`
+                        for i_, a in enumerate(arms):
+                            pt = a['pat']
+                            pth = (pt.get('path') or {}).get('path') if isinstance(pt.get('path'), dict) else pt.get('path')
+                            if pt.get('k') == 'wild' or (pt.get('k') in ('patexpr', 'path') and pth == '%s::%s' % (E, vname)):
+                                if 'guard' not in a:
+                                    return a['body']
+                                if not isinstance(a['guard'], dict) or a['guard'].get('k') == 'let':
+                                    return None
+                                rest = pick(arms[i_ + 1:])
+                                if rest is None:
+                                    return None
+                                return {'k': 'if', 'cond': a['guard'], 'then': a['body'], 'else': rest, 'ty': out.get('ty'),
+                                        'line': a.get('line') or out.get('line'), 'span': out.get('span'), 'specialised': True}
+                            elif pt.get('k') not in ('patexpr', 'path'):
+                                return None
+                        return None
+                    r_ = pick(out['arms'])
+                    return out if r_ is None else r_
             return out
         for vname, vi in sorted(set(variants.values())):
             x = copy.deepcopy({k: v for k, v in g.x.items()})
